@@ -40,3 +40,40 @@ package api
 //@   ghost before call Milliseconds #0 : G12R = 0 ; G12E = 0
 //@   ensures [passthrough] iterationDuration <= 100000000 ==> result.0 == iterationDuration && result.1 == rateFn
 //@   ensures [subtick] iterationDuration > 100000000 ==> result.0 == 100000000 && result.1 != nil
+//@
+//@ // ---- C09: tick cadence. One evaluation immediately, then exactly one per value received from the ticker;
+//@ // each evaluation's value is that tick's request to the pool, unchanged.
+//@ ghost var G9evals int
+//@ ghost var G9trig int
+//@ ghost var G9ticks int
+//@ ghost var G9last int
+//@ ghost var G9tickerMade bool
+//@
+//@ fnspec anyRate(now time.Time) (r int)
+//@   modifies nothing
+//@
+//@ func NewIterationWorker$1
+//@   props C09 C04 C14
+//@   requires rate != nil && iterationDuration > 0 && opts.Concurrency >= 1 && wfManager(workers)
+//@   dyncall rate : anyRate
+//@   ghost at entry : G9evals = 0 ; G9trig = 0 ; G9ticks = 0 ; G9tickerMade = false
+//@   ghost before call dyn:rate #1 : G9ticks = G9ticks + 1
+//@   ghost after call dyn:rate : G9evals = G9evals + 1 ; G9last = ret0
+//@   ghost before call (*PoolManager).NewTriggerPool : assert [concurrency] arg1 == opts.Concurrency && arg0 == workers
+//@   ghost before call (*TriggerPool).Trigger : assert [unchanged] arg2 == G9last ; assert [one-per-evaluation] G9trig == G9evals - 1 ; G9trig = G9trig + 1
+//@   ghost before call time.NewTicker : assert [ticker-after-first-evaluation] G9evals == 1 && G9trig == 1 ; assert [period] arg0 == iterationDuration ; G9tickerMade = true
+//@   loop 0 invariant G9evals == 1 + G9ticks && G9trig == G9evals && G9tickerMade
+//@   ensures [cadence] G9evals == 1 + G9ticks && G9trig == G9evals && G9tickerMade
+//@
+//@ // A ticker of period d has delivered at most floor(e/d) values by time e after its creation (trusted time.Ticker
+//@ // contract), and it is created after the first evaluation: so by elapsed time e at most 1 + floor(e/d) evaluations.
+//@ lemma cadenceBound
+//@   props C09
+//@   vars e int, d int, ticks int, evals int
+//@   hyp d > 0 && e >= 0 && ticks >= 0 && ticks * d <= e && evals == 1 + ticks
+//@   goal evals <= 1 + e / d
+//@
+//@ func NewIterationWorker
+//@   props C09 C14
+//@   requires rate != nil && iterationDuration > 0
+//@   ensures result != nil
